@@ -50,6 +50,7 @@ def names_of(target: str, role: str, identifier: Any) -> List[Any]:
 # the two entities of a template and the scope they share
 TEMPLATES: Dict[str, Tuple[str, str]] = {
     "two-properties": ("property", "property"),
+    "inherited-and-own-property": ("property", "property"),
     "two-classes": ("class", "class"),
     "class-and-enum": ("class", "enum"),
     "two-literals": ("literal", "literal"),
@@ -64,10 +65,17 @@ def model_text(template: str, a: str, b: str) -> str:
         body = (f'class Something(DBC):\n    """Represent something."""\n\n    {a}: str\n    """First"""\n\n    {b}: str\n'
                 f'    """Second"""\n\n    def __init__(self, {a}: str, {b}: str) -> None:\n        self.{a} = {a}\n'
                 f'        self.{b} = {b}\n')
+    elif template == "inherited-and-own-property":
+        body = ('from aas_core_meta.marker import abstract, serialization\n\n\n'
+                f'@abstract\n@serialization(with_model_type=True)\nclass Parent(DBC):\n    """Represent the parent."""\n\n    {a}: str\n'
+                f'    """First"""\n\n    def __init__(self, {a}: str) -> None:\n        self.{a} = {a}\n\n\n'
+                f'class Something(Parent):\n    """Represent something."""\n\n    {b}: str\n    """Second"""\n\n'
+                f'    def __init__(self, {a}: str, {b}: str) -> None:\n        Parent.__init__(self, {a})\n\n        self.{b} = {b}\n')
     elif template == "two-classes":
-        body = (f'class {a}(DBC):\n    """Represent the first."""\n\n    x: str\n    """X"""\n\n    def __init__(self, x: str) -> None:\n'
-                f'        self.x = x\n\n\nclass {b}(DBC):\n    """Represent the second."""\n\n    y: str\n    """Y"""\n\n'
-                f'    def __init__(self, y: str) -> None:\n        self.y = y\n')
+        # the two classes have the same shape on purpose (a generator must not fold them into one definition)
+        body = (f'class {a}(DBC):\n    """Represent the first."""\n\n    value: str\n    """Value"""\n\n    def __init__(self, value: str) -> None:\n'
+                f'        self.value = value\n\n\nclass {b}(DBC):\n    """Represent the first."""\n\n    value: str\n    """Value"""\n\n'
+                f'    def __init__(self, value: str) -> None:\n        self.value = value\n')
     elif template == "class-and-enum":
         body = (f'class {b}(Enum):\n    """Represent the enumeration."""\n\n    Some_literal = "SOME"\n\n\n'
                 f'class {a}(DBC):\n    """Represent the class."""\n\n    x: {b}\n    """X"""\n\n    def __init__(self, x: {b}) -> None:\n'
@@ -216,7 +224,7 @@ def describe(tier: str) -> Dict[str, Any]:
                       "aas_core_codegen.naming.xml_property"] + [f"aas_core_codegen.{t}.lib._generate_types.verify" for t in LANGS] + [
                       "aas_core_codegen.jsonschema.main.generate", "aas_core_codegen.xsd.main._generate"],
         "bounds": "two different identifiers a, b of 1..3 characters with at most 5 in total (thorough 1..4 each) over {a, b, A, B, _, 1} (identifier shape of the "
-                  "meta-model language) in four scopes: two properties of a class, two classes, a class and an enumeration, two literals "
+                  "meta-model language) in five scopes: two properties of a class, an inherited and an own property, two classes (of identical shape), a class and an enumeration, two literals "
                   "of an enumeration. Symbolic part: every naming function of the eight targets is executed on the symbolic pair; each "
                   "path on which two generated names coincide yields a witness. Concrete part: the witness becomes a meta-model; if the "
                   "real front end accepts it, every target whose names coincide must report an error from its verification / generation",
